@@ -82,6 +82,13 @@ def main():
         row["wall_s"] = round(time.time() - t0, 1)
         res.append(row)
         print(json.dumps({k: row[k] for k in ("id", "result") if k in row}), flush=True)
+    if filt and os.path.exists(os.path.join(ROOT, "selftest/MATRIX.json")):
+        # partial run: merge the new rows into the existing matrix (by id), keep catalogue order
+        old = {r["id"]: r for r in json.load(open(os.path.join(ROOT, "selftest/MATRIX.json")))}
+        for r in res:
+            old[r["id"]] = r
+        order = [e["id"] for e in entries()]
+        res = [old[i] for i in order if i in old]
     json.dump(res, open(os.path.join(ROOT, "selftest/MATRIX.json"), "w"), indent=1)
     with open(os.path.join(ROOT, "selftest/MATRIX.md"), "w") as f:
         f.write("| change | target | target check | other checks that fire | first signature |\n|---|---|---|---|---|\n")
